@@ -349,6 +349,76 @@ def abort_effects(res, tpl):
                     break
 
 
+# ------------------------------------------------------------------ nested eval calls: each judged on its own budget, whatever the outer call has left
+
+NESTED_OUTER = ['t(1); inner(); t(2)', 'q = v => inner() + v; map(l, q)', 'x = 1 + 2 + 3 + 4 + 5 + 6; inner(); x', 'swallow(v => inner() + u_undefined, 1); inner()']
+NESTED_INNER = ['1 + 2 + 3 + 4 + 5 + 6 + 7 + 8', 'map(l, v => v + 1) | len', 'w = k => 0 if k < 1 else w(k - 1) + 1; w(4)', 'f1 = v => v; f1(1)']
+
+
+def nested_budgets(res):
+    """An eval call made by a host callback while another eval call is running: for EVERY budget M of the outer call and EVERY budget N of the
+    nested one, the nested call ends exactly as the same call made stand-alone (same program, equal names, same N)."""
+    api = snapshot.api()
+    D = api.Decimal
+
+    def fresh():
+        return {'l': [D(1), D(2), D(3)], 'n': D(3)}
+
+    def alone(src, N):
+        try:
+            return ('ok', _plain(parser().eval(src, fresh(), max_ops_evaluated=N)))
+        except api.OpsLimit:
+            return ('limit',)
+        except Exception as e:  # noqa
+            return ('err', type(e).__name__)
+    for inner_src in NESTED_INNER:
+        cnt = Count()
+        with opwrap.traced(cnt):
+            parser().eval(inner_src, fresh(), max_ops_evaluated=10 ** 6)
+        Kn = cnt.entered
+        want = {N: alone(inner_src, N) for N in range(1, Kn + 3)}
+        for outer_src in NESTED_OUTER:
+            seen = []
+            budget = [None]
+
+            def inner():
+                r = alone(inner_src, budget[0])
+                seen.append(r)
+                return D(0)
+            log = []
+            cnt0 = Count()
+            names = host_names(log, cnt0)
+            names['inner'] = inner
+            budget[0] = Kn + 2
+            try:
+                with opwrap.traced(cnt0):
+                    parser().eval(outer_src, names, max_ops_evaluated=10 ** 6)
+            except Exception:  # noqa
+                pass
+            Ko = cnt0.entered          # counts the nested nodes too: an upper bound for the interesting outer budgets
+            res.count('programs')
+            for M in list(range(1, Ko + 3)) + [10 ** 6]:
+                for N in range(1, Kn + 3):
+                    del seen[:]
+                    budget[0] = N
+                    names = host_names([], Count())
+                    names['inner'] = inner
+                    try:
+                        parser().eval(outer_src, names, max_ops_evaluated=M)
+                    except Exception:  # noqa
+                        pass
+                    res.count('evals')
+                    res.count('nested_pairs')
+                    for r in seen:
+                        res.outcome(f'nested:{r[0]}')
+                        if r != want[N]:
+                            res.violation(f'nested-eval-not-judged-on-own-budget:{want[N][0]}->{r[0]}', 'an eval call made from a host callback while an outer '
+                                          'eval call is running does not end as the same call does stand-alone (its outcome depends on the outer call\'s budget)',
+                                          {'outer_program': outer_src, 'outer_budget': M, 'nested_program': inner_src, 'nested_budget': N, 'K_nested': Kn,
+                                           'expected': repr(want[N])[:200], 'observed': repr(r)[:200]})
+                            return
+
+
 # ------------------------------------------------------------------ histories
 
 HIST_CALLS = ['ax9 + 1', 'nested_safe("u_undefined + 1"); f(1)', 'f = v => v + 1; nested_safe("1 / 0"); map(l, f)', 'f = v => v + 1; nested("f(1)")', 'h9 = v => t(v); nested("map(l, h9) | len") + h9(1)', 'nested("1 + 1"); f(1)', 'nested("f(1)") + f(2)', 'f = v => v + 1', 'f = v => t(v) + t(v) + v', 'f = v => map(l, w => w + v)', 'f(1)', 'f(2) + f(3)', 'map(l, f)',
@@ -544,6 +614,9 @@ def work(task):
     if task[0] == 'threads':
         thread_check(res)
         return res
+    if task[0] == 'nested-budgets':
+        nested_budgets(res)
+        return res
     kind = task[0]
     if kind == 'abort':
         for tpl in task[1]:
@@ -612,6 +685,7 @@ def main(tier, seed, t0):
     step = max(1, len(hists) // 48)
     tasks += [('hist', hists[i:i + step]) for i in range(0, len(hists), step)]
     tasks.append(('threads',))
+    tasks.append(('nested-budgets',))
     tpls = [t for t in c07.STATEMENTS if t != '{E}'] + ABORT_EXTRA
     tasks += [('abort', tpls[i::24]) for i in range(24)]
     tasks = runner.rotate(tasks, seed)
@@ -648,6 +722,9 @@ def replay(w):
         alone = [run_threads([p], [0] * 10)[0] for p in progs]
         bad = any(g[3] for g in got) or any((g[0], g[1], g[2], g[4]) != (a[0], a[1], a[2], a[4]) for g, a in zip(got, alone))
         return ('REPRODUCED' if bad else 'HOLDS') + f"\n schedule={w['schedule']} -> {[g[:4] for g in got]!r}\n alone -> {[a[:4] for a in alone]!r}"
+    if 'nested_program' in w:
+        nested_budgets(res)
+        return ('REPRODUCED' if res.viol else 'HOLDS') + "\n " + repr({k: v[1][:1] for k, v in res.viol.items()})[:800]
     if w.get('abort_effects'):
         abort_effects(res, w['program'])          # the program text has no holes left: exactly this program, every abort point
         return ('REPRODUCED' if res.viol else 'HOLDS') + f"\n {w['program']!r}\n " + repr({k: v[1][:1] for k, v in res.viol.items()})[:800]
